@@ -2,6 +2,7 @@
 import H3Model.Proto
 import H3Model.Index
 import H3Model.Str
+import H3Model.HierSpec
 
 namespace H3.Ops
 open H3 H3.Proto
@@ -72,6 +73,22 @@ def opsCore (op : String) (a : List String) : Option String :=
     let h ← parseH h
     let r ← parseInt r
     pure (showR showH (childPosToCell p h r))
+  | "cposS", [h, r] => do
+    let h ← parseH h
+    let r ← parseInt r
+    -- the C function additionally runs a defensive validation that never fires (theorem childPos_lt_size)
+    pure (showR toString (cellToChildPosS h r))
+  | "pos2cellS", [p, h, r] => do
+    let p ← parseInt p
+    let h ← parseH h
+    let r ← parseInt r
+    pure (showR showH (childPosToCellS p h r))
+  | "childrenS", [h, r] => do
+    let h ← parseH h
+    let r ← parseInt r
+    match cellToChildrenSize h r with
+    | .error e => pure ("err " ++ toString e.code)
+    | .ok _ => pure ("ok " ++ showHs (cellToChildrenS h r))
   | "rt", [h] => do
     -- specification-level answer: the centre round trip returns the cell itself
     let h ← parseH h
